@@ -281,9 +281,22 @@ func resolvePath(basePath *url.URL, componentPath *url.URL) *url.URL {
 	if is_file(componentPath) {
 		// support absolute paths
 		if filepath.IsAbs(componentPath.Path) {
+			if basePath != nil && basePath.Host != "" && componentPath.Scheme == "" {
+				// RFC 3986 5.2.2: an absolute-path reference found in a remote document
+				// stays on that document's scheme and authority, it is not a local file
+				resolved := *componentPath
+				resolved.Scheme, resolved.User, resolved.Host = basePath.Scheme, basePath.User, basePath.Host
+				return &resolved
+			}
 			return componentPath
 		}
 		return join(basePath, componentPath)
+	}
+	if componentPath.Scheme == "" && componentPath.Host != "" && basePath != nil && basePath.Scheme != "" {
+		// RFC 3986 5.2.2: a network-path reference (//host/path) inherits the scheme
+		resolved := *componentPath
+		resolved.Scheme = basePath.Scheme
+		return &resolved
 	}
 	return componentPath
 }
